@@ -39,7 +39,8 @@ extern "C" int LLVMFuzzerTestOneInput(const uint8_t* data, size_t size) {
     enc::PbfEncoder::Hostile hostile;
     const bool use_hostile = fmt == 0 && s.boolean();  // PBF: well-formed protobuf, inconsistent in one place
     if (use_hostile) hostile = filegen::gen_hostile(s);
-    filegen::Made m = filegen::small_file(s, fmt, 5, true, 0, use_hostile ? &hostile : nullptr);
+    const bool use_hostile_o5m = fmt == 1 && s.boolean();  // o5m: well-formed varints and strings, one object inconsistent
+    filegen::Made m = filegen::small_file(s, fmt, 5, true, use_hostile_o5m ? 1 : 0, use_hostile ? &hostile : nullptr, use_hostile_o5m);
     std::string b = m.bytes;
     size_t steps = s.draw(4);
     for (size_t i = 0; i < steps; ++i) filegen::mutate(s, b);
